@@ -542,8 +542,9 @@ func buildMinCase(r *vrt.Rand, idx, batch, procs int) *minCase {
 	mc.dim = r.Range(1, 4)
 	mc.proxy = r.Intn(3) != 0
 	if mc.method == "ListSearch" && mc.cause == "nan" {
-		// Known finding: ListSearch panics in its own goroutine when the
-		// first value it sees is NaN; only the proxy can contain that.
+		// Up to /repo commit 6bb7add ListSearch panicked in its own goroutine
+		// when the first value it saw was NaN; only the proxy can contain a
+		// panic of the method goroutine, so this combination keeps using it.
 		mc.proxy = true
 	}
 	mc.recorder = r.Bool() || mc.cause == "recErr" || mc.cause == "recInitErr"
@@ -896,7 +897,8 @@ func checkMinCase(c *vrt.Ctx, mc *minCase, o *minOutcome) {
 	}
 	// CmaEsChol (ForgetBest unset) reports the best sample over all
 	// populations. Runs that stop inside the FIRST population are left to C19
-	// (known there: fs is not initialised, unevaluated slots count as 0); once
+	// (before /repo commit 6ac559f fs was not initialised there and
+	// unevaluated slots counted as 0); once
 	// a population has been completed, every slot is reset to NaN and the
 	// result must be the minimum of the evaluated set, evaluated at Result.X -
 	// whatever the order in which the workers delivered the values.
